@@ -43,6 +43,7 @@ def check(ctx):
     handshake_waiter(ctx, W, Call(re.escape(S) + "::post"), "handshake", "permit", park_err, exits_kind="ret+trigger")
     handshake_waker(ctx, S + "::wakeup_one", Call(re.escape(S) + "::post"), "waker", "permit")
     syncblocker_rules(ctx)      # the handshake primitives themselves (release is consumed atomically by exactly one side)
+    shared.no_panicking_instant_arithmetic(ctx)
     for g in [x for x in ctx.prog.find(re.escape(S) + "::") if ctx.an.sites(x, Call(SEGQ + "pop", on=S + ".to_wake", transitive=False), "must")]:
         pops = ctx.an.sites(g, Call(SEGQ + "pop", on=S + ".to_wake", transitive=False), "must")
         ups = shared.own_sites(ctx, g, Call(re.escape(SB) + "::unpark", transitive=False, where=shared._not_own_blocker))
